@@ -7,8 +7,13 @@ from mc.streams import UBX_ERRORS
 from pyubx2 import UBXReader
 
 
-def public_attrs(msg):
-    return [k for k in msg.__dict__ if not k.startswith("_")]
+def public_attrs(msg, expected=None):
+    """Public payload attributes in payload order.  Normally the instance dict; if an implementation
+    keeps them elsewhere, fall back to the expected names that the message exposes (order unknown)."""
+    names = [k for k in getattr(msg, "__dict__", {}) if not k.startswith("_")]
+    if names or not expected:
+        return names
+    return [n for n in expected if hasattr(msg, n)]
 
 
 def compare_parse(mode, clsid, payload, parsebf, label=None):
@@ -35,8 +40,8 @@ def compare_parse(mode, clsid, payload, parsebf, label=None):
     out = []
     if len(payload) == 0:
         return "ok", [], 0  # null payload: no attributes required (O19)
-    names = public_attrs(msg)
     want = [n for n, _ in exp]
+    names = public_attrs(msg, want)
     if names != want:
         missing = [n for n in want if n not in names]
         extra = [n for n in names if n not in want]
@@ -49,10 +54,10 @@ def compare_parse(mode, clsid, payload, parsebf, label=None):
             out.append((f"attribute_order|{label}|{pb}|{L_base(want[i])}", f"position {i}: got {names[i]} want {want[i]}"))
     n = 0
     for nm, pred in exp:
-        if nm not in msg.__dict__:
+        if nm not in names:
             continue
         n += 1
-        got = msg.__dict__[nm]
+        got = getattr(msg, nm)
         if not L.value_matches(got, pred):
             out.append((f"attribute_value|{label}|{pb}|{L_base(nm)}", f"{nm}: got {got!r} want {pred!r}"))
     try:
